@@ -1,6 +1,7 @@
 package extractor
 
 import (
+	nurl "net/url"
 	"strings"
 
 	"github.com/go-shiori/dom"
@@ -78,4 +79,72 @@ func HarnessC19Folding() {
 	vx.Cover("folding")
 	vx.Assert(!strings.Contains(out, "embed-placeholder"), "a host that equals an allow-listed name only under Unicode case folding got an embed placeholder: "+src)
 	vx.Assert(!strings.Contains(out, "<iframe") && !strings.Contains(out, "<object") && !strings.Contains(out, "<embed"), "an unrecognised embed element is in the distilled HTML")
+}
+
+func c19Convert(body string, pageURL string) string {
+	var pu *nurl.URL
+	if pageURL != "" {
+		pu, _ = nurl.Parse(pageURL)
+	}
+	doc := vx.ParseHTML("<html><head><title>T</title></head><body><p>alpha beta</p>" + body + "<p>gamma</p></body></html>")
+	b := webdoc.NewWebDocumentBuilder(c19Counter{}, pu)
+	converter.NewDomConverter(converter.Default, b, pu, nil).Convert(dom.QuerySelector(doc, "html"))
+	wd := b.Build()
+	for _, e := range wd.Elements {
+		e.SetIsContent(true)
+	}
+	return wd.GenerateOutput(false)
+}
+
+// HarnessC19Placeholder: the placeholder that is emitted for a recognised
+// embed names the service and the identifier taken from the URL, whatever
+// data-* attributes the embedding element itself carries.
+func HarnessC19Placeholder() {
+	own := []string{"", ` data-id="evil" data-type="other"`, ` data-type="" data-foo="bar" data-id=""`}[vx.Choose("own", 3)]
+	forms := []struct{ html, typ, id string }{
+		{`<iframe src="https://www.youtube.com/embed/abc123"` + own + `></iframe>`, "youtube", "abc123"},
+		{`<iframe src="https://player.vimeo.com/video/4567"` + own + `></iframe>`, "vimeo", "4567"},
+		{`<blockquote class="twitter-tweet"` + own + `><p>tweet</p><a href="https://twitter.com/u/status/8910">d</a></blockquote>`, "twitter", "8910"},
+		{`<iframe src="https://platform.twitter.com/embed/x" data-tweet-id="8911"` + own + `></iframe>`, "twitter", "8911"},
+	}
+	f := forms[vx.Choose("form", len(forms))]
+	out := c19Convert(f.html, "")
+	od := vx.ParseHTML("<html><body>" + out + "</body></html>")
+	ph := dom.QuerySelector(od, ".embed-placeholder")
+	vx.Assert(ph != nil, "recognised embed has no placeholder")
+	if ph == nil {
+		return
+	}
+	vx.Cover("placeholder")
+	vx.Assert(dom.GetAttribute(ph, "data-type") == f.typ, "placeholder does not name the service of the allow-listed host")
+	vx.Assert(dom.GetAttribute(ph, "data-id") == f.id, "placeholder does not carry the identifier taken from the URL")
+}
+
+// HarnessC19History: a relative frame address is judged against the page it is
+// on: after a page of the service itself (where /embed/x is the service's
+// player) was distilled, the same relative address on another site is still a
+// foreign frame -- and the other way round.
+func HarnessC19History() {
+	svc := []struct{ page, src string }{{"https://www.youtube.com/watch", "/embed/abc123"}, {"https://player.vimeo.com/x", "/video/4567"}, {"https://www.youtube.com/watch", "//www.youtube.com/embed/abc123"}}[vx.Choose("svc", 3)]
+	fr := `<iframe src="` + svc.src + `"></iframe>`
+	has := func(page string) bool { return strings.Contains(c19Convert(fr, page), "embed-placeholder") }
+	if vx.Choose("order", 2) == 0 {
+		first := has(svc.page)
+		if first {
+			vx.Cover("own-site")
+		}
+		if !strings.HasPrefix(svc.src, "//") {
+			vx.Assert(!has("http://h.t/story"), "a relative frame address on a foreign site got a placeholder after the service's own page was distilled")
+		}
+	} else {
+		foreign := has("http://h.t/story")
+		if !strings.HasPrefix(svc.src, "//") {
+			vx.Assert(!foreign, "a relative frame address on a foreign site got a placeholder")
+		}
+		again := has(svc.page)
+		vx.Assert(again == has(svc.page), "the same page gives different results when distilled twice")
+		if again {
+			vx.Cover("own-site")
+		}
+	}
 }
